@@ -117,7 +117,7 @@ theorem C04.store_condition (f : FuncVal) (args : List Obj) (curState before aft
   dsimp only
   have key : ∀ s : St, s.cache = st.cache →
       (runM (if (after != before) = true then
-          (if cantCache = true then triggerNoCache curState >>= fun _ => pure res else pure res)
+          (triggerNoCache curState >>= fun _ => pure res)
         else if res.isError = true then pure res else cacheSet f.key args res output >>= fun _ => pure res) s).2.cache
         = st.cache := by
     intro s hs
@@ -131,15 +131,13 @@ theorem C04.store_condition (f : FuncVal) (args : List Obj) (curState before aft
       rw [runM_pure]; exact hs
     · have : (after != before) = true := by simpa using hab
       simp only [this, if_true]
-      split
-      · rw [runM_bind]
-        have h1 := cache_triggerNoCache curState s
-        generalize runM (triggerNoCache curState) s = p at h1
-        obtain ⟨r, s'⟩ := p
-        cases r with
-        | ok _ => dsimp only at h1 ⊢; rw [runM_pure]; dsimp only; rw [h1, hs]
-        | error _ => dsimp only at h1 ⊢; rw [h1, hs]
-      · rw [runM_pure]; exact hs
+      rw [runM_bind]
+      have h1 := cache_triggerNoCache curState s
+      generalize runM (triggerNoCache curState) s = p at h1
+      obtain ⟨r, s'⟩ := p
+      cases r with
+      | ok _ => dsimp only at h1 ⊢; rw [runM_pure]; dsimp only; rw [h1, hs]
+      | error _ => dsimp only at h1 ⊢; rw [h1, hs]
   split
   · rw [runM_bind]
     obtain ⟨hc, s', hs'⟩ := cache_writeOut output st
